@@ -116,6 +116,12 @@ let dispatch cmd =
   | "parse_http_sig" -> let t = ntext () in jres jhsig (parse_http_sig t)
   | "parse_mtu_sig" -> let t = ntext () in jres ji (parse_mtu_sig t)
   | "parse_os_label" -> let t = ntext () in jres jlabel (parse_os_label t)
+  | "dump" -> let l = nlist nz in let eol = nz () in let q = nn () in
+      "[" ^ jtext (dump_layout l eol) ^ "," ^ jtext (dump_quirks q) ^ ","
+      ^ jres (fun (l, e) -> "[" ^ jl ji l ^ "," ^ ji e ^ "]") (parse_layout (dump_layout l eol)) ^ ","
+      ^ jres jn (parse_quirks (dump_quirks q) (z_of_int (-1))) ^ "]"
+  | "parse_layout" -> let t = ntext () in jres (fun (l, e) -> "[" ^ jl ji l ^ "," ^ ji e ^ "]") (parse_layout t)
+  | "parse_quirks" -> let v = nz () in let t = ntext () in jres jn (parse_quirks t v)
   | _ -> failwith ("unknown command " ^ cmd)
 
 let () =
